@@ -4,7 +4,8 @@ import random
 from lyast import *
 
 NUMS = [0, 1, 2, 3, 5, 7, 10, -1, -2, 0.5, 1.5, 100, 1e3, 0.25, -0.5, 12]
-STRS = ['', 'a', 'b', 'ab', 'abc', 'zz', 'A', 'hello', 'x y', 'héé', '10', 'q']
+STRS = ['', 'a', 'b', 'ab', 'abc', 'zz', 'A', 'hello', 'x y', 'héé', '10', 'q', 'tab\there', "it's", 'say "hi"',
+        'back\\slash', 'two\nlines', '日本', 'a😀']
 ARITH = ['+', '-', '*', '/']
 CMP = ['<', '<=', '>', '>=']
 EQ = ['==', '!=']
